@@ -432,16 +432,22 @@ def run_module_functional(ctx: Ctx) -> None:
         ctx.fn(fw)
 
         def th(ci=ci, target=target):
-            got = record_run(lambda it, x, y, m: it.call_value(it.new(ci), [x, y], {"mask": m}), None)
+            ft = funcs[target]
+            fwp = prog.find_method(ci, "forward").params[3:]
+            # further tensor arguments of forward() that the functional form takes under the same name (e.g. source_mask, target_mask)
+            extra_names = [p_ for p_ in fwp if p_ != "mask" and p_ in ft.params]
+
+            def extras():
+                return {p_: STensor.symbols(f"arg_{p_}_", [1, 1] + list(SHAPE[2:])) for p_ in extra_names}
+            mkey = "mask" if "mask" in ft.params else "weight"
+            got = record_run(lambda it, x, y, m: it.call_value(it.new(ci), [x, y], dict(extras(), mask=m)), None)
             if not got:
                 return False, f"{ci.name}.forward() reaches no functional of losses.functional"
-            ft = funcs[target]
             if got[0][0] == target:
                 # the module calls its functional directly: compare with a default call of that functional
-                mk = {"weight": None} if "mask" not in ft.params and "weight" in ft.params else {}
-                want = record_run(lambda it, x, y, m: it.overrides[ft.key](it, [x, y], {("mask" if "mask" in ft.params else "weight"): m}), None)
+                want = record_run(lambda it, x, y, m: it.overrides[ft.key](it, [x, y], dict(extras(), **{mkey: m})), None)
             else:
-                want = record_run(lambda it, x, y, m: it.call(ft, x, y, **{("mask" if "mask" in ft.params else "weight"): m}), target)
+                want = record_run(lambda it, x, y, m: it.call(ft, x, y, **dict(extras(), **{mkey: m})), target)
             if not want:
                 return False, f"{target}() reaches no other functional (adaptor)"
             ok, why = same_call(got[0], want[0])
@@ -449,3 +455,33 @@ def run_module_functional(ctx: Ctx) -> None:
                 return False, f"{ci.name}() {why} — the class does not evaluate {target}()"
             return True, ""
         _guard(ctx, "T16.module-functional", ci.name, fw, f"class={ci.name} functional={target}", th)
+
+
+def run_invariances(ctx: Ctx) -> None:
+    prog = ctx.prog
+    L = "deepali.losses.functional"
+    ctx.rule("T16.invariance", "global (ncc_loss) and local (lcc_loss, window 3 on a 3x3 image so that every window is clipped by the border) "
+                               "normalised cross correlation with epsilon = 0 are unchanged when the source is replaced by a*source + b: "
+                               "symbolic offset b, scale factors a in {3, -2, 1/2}; as rational-function identities in symbolic voxel values")
+    for name, kw in (("lcc_loss", {"kernel_size": 3}), ("ncc_loss", {})):
+        f = prog.func(L, name)
+        ctx.fn(f)
+
+        def th(f=f, kw=kw, name=name):
+            reset_relations()
+            facts = fresh_facts()
+            it = make_interp(ctx)
+            shape = [1, 1, 3, 3]
+            x, y = STensor.symbols("x", shape), STensor.symbols("y", shape)
+            be = Rat.atom("be")
+            k = dict(kw, epsilon=0, reduction="none")
+            base = it.call(f, x, y, **k)
+            if not teq(it.call(f, x.add(be), y, **k), base):
+                return False, f"{name}(source + b, target) differs from {name}(source, target): not invariant to an intensity offset"
+            if not teq(it.call(f, x, y.add(be), **k), base):
+                return False, f"{name}(source, target + b) differs from {name}(source, target)"
+            for a in (3, -2, Fraction(1, 2)):
+                if not teq(it.call(f, x.mul(a), y, **k), base):
+                    return False, f"{name}({a} * source, target) differs from {name}(source, target): not invariant to intensity scale"
+            return True, ""
+        _guard(ctx, "T16.invariance", name, f, f"loss={name}", th)
